@@ -311,7 +311,15 @@ func (s *server) doHTTP(sym *symbol, method string) *outcome {
 		if sym.Ext != "" {
 			q.Set("extensions", sym.Ext)
 		}
-		req = httptest.NewRequest(http.MethodGet, "/query?"+q.Encode(), nil)
+		target := "/query?" + q.Encode()
+		if sym.RawGetQuery != "" {
+			q.Del("query")
+			target = "/query?" + sym.RawGetQuery
+			if e := q.Encode(); e != "" {
+				target += "&" + e
+			}
+		}
+		req = httptest.NewRequest(http.MethodGet, target, nil)
 	} else {
 		var b bytes.Buffer
 		b.WriteString("{")
@@ -542,7 +550,7 @@ func randomHistories(rep *ev.Reporter, alpha []*symbol, seed int64, count, lengt
 				}
 			}
 			var st runStats
-			runSeq(rep, seqCase{Part: "random", Cache: k.Name, Via: "executor", Mode: h % 3, Seq: names}, syms, &st)
+			runSeq(rep, seqCase{Part: "random", Cache: k.Name, Via: []string{"executor", http.MethodPost, http.MethodGet, "executor"}[(h/3)%4], Mode: h % 3, Seq: names}, syms, &st)
 			mu.Lock()
 			flush(rep, "random", &st)
 			total += st.requests
